@@ -2,20 +2,10 @@
    manhattan for 4 directions, octile and chebyshev for 4 and 8 directions; hence astar_grid (weight 1) over
    Z[sqrt 2] returns the shortest distance. *)
 From Coq Require Import List ZArith Bool Arith Lia.
-From SV Require Import C11.BestFirst C11.BestGrid C11.BestSpec C11.BestGraph C11.BestOrder C11.BestZr2
+From SV Require Import C11.BestFirst C11.BestGrid C11.BestSpec C11.BestGraph C11.BestOrder C11.BestHyps C11.BestZr2
   C11.BestProofs1 C11.BestProofs4 C11.BestProofs5 C11.BestProofsInst.
 Import ListNotations.
 Open Scope Z_scope.
-
-Definition costs_ge1 (cost_map : list (Z * Z)) : bool := forallb (fun kv : Z * Z => 1 <=? snd kv) cost_map.
-
-(* heuristic (after resolving "auto") for which astar_grid is claimed optimal *)
-Definition heur_ok (directions : Z) (hn : hname) : bool :=
-  match hn with
-  | Hmanhattan => negb (directions =? 8)
-  | Hoctile | Hchebyshev => true
-  | Hauto | Heuclidean => false
-  end.
 
 Lemma lookup_In_Z : forall (k : Z) (l : list (Z * Z)) v, lookup Z.eqb k l = Some v -> In (k, v) l.
 Proof.
@@ -80,14 +70,14 @@ Proof.
     unfold DIRS_4, DIRS_8 in Hd. simpl in Hd. dirs_cases Hd; apply zr_le_suff; left; red_w; lia.
   - (* octile *)
     destruct (directions =? 8); unfold DIRS_4, DIRS_8 in Hd; simpl in Hd; dirs_cases Hd;
-      apply zr_le_suff; red_w; try lia. Show.
+      apply zr_le_suff; red_w; lia.
   - (* chebyshev *)
     destruct (directions =? 8); unfold DIRS_4, DIRS_8 in Hd; simpl in Hd; dirs_cases Hd;
       apply zr_le_suff; red_w; lia.
 Qed.
 
 Lemma zr_scale_1 : forall x, zr_scale 1 x = x.
-Proof. intros [a b]. unfold zr_scale. simpl. f_equal; lia. Qed.
+Proof. intros [a b]. unfold zr_scale. cbn [fst snd]. f_equal; lia. Qed.
 
 Theorem astar_grid_optimal : forall g start goal directions h blocked cost_map max_iter r,
   costs_ge1 cost_map = true -> heur_ok directions (resolve_h directions h) = true ->
@@ -104,13 +94,18 @@ Proof.
                 OPTIMAL (zr_grid_nbrs g directions blocked cost_map) (cell_eqb goal) max_iter None (grid_fuel g) start = Some r).
   { unfold heur_ok in Hok. destruct hn; try discriminate; exact H. }
   clear H.
-  eapply (astar_c_optimal cell_eqb cell_eqb_spec zr_zero zr_add zr_ltb zr2_ordered_costs
-            (zr_grid_nbrs g directions blocked cost_map) (cell_eqb goal) max_iter None start
-            (grid_nonneg g directions blocked cost_map Hc) _ _ _ OPTIMAL (grid_fuel g) r); [| |discriminate|exact G].
-  - intros u v w Hin. destruct (Hsome u) as [x Hx].
+  set (wh := fun v => match zr_heur hn goal v with Some x => zr_scale 1 x | None => zr_zero end) in *.
+  assert (Hcons : forall u v w, In (v, w) (zr_grid_nbrs g directions blocked cost_map u) ->
+                    cle zr_ltb (wh u) (zr_add w (wh v))).
+  { intros u v w Hin. destruct (Hsome u) as [x Hx].
     destruct (grid_consistent g directions blocked cost_map goal hn x Hc Hok u v w Hin Hx) as [y [Hy Hle]].
-    rewrite Hx, Hy, !zr_scale_1. assumption.
-  - intros t Ht. apply cell_eqb_spec in Ht. subst t. destruct (Hsome goal) as [x Hx]. rewrite Hx, zr_scale_1.
+    unfold wh. rewrite Hx, Hy, !zr_scale_1. assumption. }
+  assert (Hgoal : forall t, cell_eqb goal t = true -> wh t = zr_zero).
+  { intros t Ht. apply cell_eqb_spec in Ht. subst t. destruct (Hsome goal) as [x Hx]. unfold wh. rewrite Hx, zr_scale_1.
     unfold heur_ok in Hok. destruct goal as [gr gc]. unfold zr_heur in Hx. simpl fst in Hx. simpl snd in Hx.
-    destruct hn; try discriminate; inversion Hx; unfold zr_zero; f_equal; lia.
+    destruct hn; try discriminate; inversion Hx; unfold zr_zero; f_equal; lia. }
+  assert (Hne : OPTIMAL <> INFEASIBLE) by discriminate.
+  exact (astar_c_optimal cell_eqb cell_eqb_spec zr_zero zr_add zr_ltb zr2_ordered_costs
+           (zr_grid_nbrs g directions blocked cost_map) (cell_eqb goal) max_iter None start
+           (grid_nonneg g directions blocked cost_map Hc) wh Hcons Hgoal OPTIMAL (grid_fuel g) r Hne G).
 Qed.
